@@ -11,18 +11,18 @@ def e(text, ref, technique, note=""):
 
 
 TABLE = {
-    "C01": e("Lean theorems over the model for every operation history: the line/acknowledgement coupling invariant (no byte is read while a complete non-blank line lacks its result code; result codes never outnumber complete non-blank lines; blank lines start none). Model tied to cat.c by per-call differential traces; an independent oracle on the implementation trace supplies failing inputs.",
+    "C01": e("Lean theorems over the model for every history of API calls (C01_one_code_per_line): result codes started + code still owed = lines begun + code owed at the start, with at most one owed at any time; the line coupling (behind a line's LF the last consumed byte is that LF, so no parser exit acknowledges before the LF) and the hold coupling are invariants; no input is consumed behind the LF; IDLE is re-entered only behind a completely emitted result code. Liveness is sampled (C15). Model tied to cat.c by per-call differential traces; an independent oracle on the implementation trace supplies failing inputs.",
              "DESIGN.md 8 C01, Appendix B.1", "Lean 4 invariant by induction over operation sequences + differential correspondence"),
-    "C02": e("Lean theorems: the 2-bit lane algebra, the per-character update round and the search loop compute the specification's `resolve` (first enabled exact match, else unique enabled proper extension) for tables of any size; character classes regenerated from the source and proved over all 256 bytes.",
+    "C02": e("Lean theorems: character classes regenerated from the source and proved over all 256 bytes; the 2-bit lane algebra; a whole sweep of update_command over a table of any size computes every entry's match state against the typed name (C02_sweep); the search loop returns exactly the specification's `resolve` (first full match, else unique partial match, else ERROR; C02_search with a declarative characterisation); the request type is fixed by the suffix alone and each loop step invokes exactly one handler of its type for the selected command.",
              "DESIGN.md 8 C02", "Lean 4 refinement of the lane/search loops to a name-resolution spec + translator + correspondence"),
-    "C03": e("PARTIAL. Lean theorems about the model's index arithmetic (checked accessors never raise the fault flag on the proved paths; region disjointness of the two buffer halves from the generated size expressions). That the compiled C performs those accesses and no others is sampled by the ASan/UBSan-instrumented correspondence run with exact-size allocations.",
+    "C03": e("PARTIAL. Lean theorems: buffer geometry from the generated size expressions; a store faults iff outside the acting machine's region and then stores nothing; one step of either machine leaves the other machine's region unchanged (all states, inputs, handler answers); print primitives, result-code copy, argument collection and in-range variable stores never raise the model's fault flags. The global no-fault invariant is not proved; that the compiled C performs those accesses and no others is sampled by the ASan/UBSan-instrumented correspondence run with exact-size allocations.",
              "DESIGN.md 8 C03, 13", "Lean 4 bounds lemmas on a fault-flag model + sanitizer-instrumented differential runs",
              "Partial by nature: a theorem cannot exhibit memory accesses of compiled code."),
     "C04": e("Lean theorems by induction over the argument text (any length): each numeric parser accepts exactly the type's grammar with the exact mathematical value, the 64-bit accumulators never wrap under the guards, range validation is exactly `fits`, a rejected text stores nothing.",
              "DESIGN.md 8 C04", "Lean 4 induction over digit lists (parser = grammar and value) + correspondence"),
     "C05": e("Lean theorems by induction over the text: the hex-buffer and string decoders accept exactly the specified grammars, store exactly the decoded bytes, report the decoded length, and never store at an index >= data_size (also on rejected texts).",
              "DESIGN.md 8 C05", "Lean 4 induction over the argument text (decoder = unescape/hexPairs, store-index bound) + correspondence"),
-    "C06": e("Lean theorems: the argument-collection phase stores exactly the CR-free bytes, NUL-terminated with exact length, iff they fit; otherwise the machine is in the ERROR state having stored nothing beyond capacity; the handler events carry buffer, length and capacity of the acting machine.",
+    "C06": e("Lean theorems: the argument-collection invariant ArgsInv (the command buffer holds exactly the CR-free bytes sent, case preserved, NUL-terminated, exact length) is established at '=' / implicit write, extended by every byte iff it and its terminator fit, otherwise the machine enters the inert ERROR state (no handler, no store, ERROR at the LF); variable parsing keeps the text; the write handler event carries exactly text, length and parsed-variable count; read/test handler events of both machines carry their own region's C string, position and capacity.",
              "DESIGN.md 8 C06", "Lean 4 phase lemma by induction over the input + correspondence"),
     "C07": e("Lean theorems: parse(format v) = v for all values of the five variable types (decimal signed/unsigned, fixed-width hex, hex buffers, escaped strings without NUL), by induction / strong induction with no bound on width.",
              "DESIGN.md 8 C07", "Lean 4 round-trip laws (format then parse is the identity) + correspondence incl. snprintf agreement"),
